@@ -16,6 +16,9 @@ type VerifInstance struct {
 	Status int
 	// Weakness is a copy of the instance's own weakness entries (ToModel does not carry them).
 	Weakness info.WeaknessMap
+	// RawStats is a copy of the instance's own property entries, including entries whose value is 0
+	// (ToModel drops those; whether an instance holds any entry decides a property-change notification).
+	RawStats info.PropMap
 }
 
 // VerifInstances returns the instances attached to target in attachment order (verification only).
@@ -26,7 +29,11 @@ func (mgr *Manager) VerifInstances(target key.TargetID) []VerifInstance {
 		for k, v := range m.weakness {
 			weak[k] = v
 		}
-		out = append(out, VerifInstance{Inst: m, Model: m.ToModel(), Renew: m.renewTurn, CanP2: m.canTickImmediatelyPhase2, Status: int(m.statusType), Weakness: weak})
+		raw := make(info.PropMap, len(m.stats))
+		for k, v := range m.stats {
+			raw[k] = v
+		}
+		out = append(out, VerifInstance{Inst: m, Model: m.ToModel(), Renew: m.renewTurn, CanP2: m.canTickImmediatelyPhase2, Status: int(m.statusType), Weakness: weak, RawStats: raw})
 	}
 	return out
 }
